@@ -60,7 +60,8 @@ class C15(XsProp):
         for prog in ['10 var X X ^hex ! X X println X', '10 var X X 1 "k" insert-tag ! X X tags', '0.0 var z -0.0 ! z z', '5 var a a ! a a',
                      '[ 1 ] var v v 2 "t" insert-tag ! v v tags v', '1 var q 3 0 do q ^bin ! q loop q print',
                      '1 2 3 rot rot swap drop', ': f 3 0 do I 10 * local x x loop ; f', ': h local x 3 0 do x I + local x loop x ; 10 h',
-                     ': g 2 0 do 2 0 do I J + local y y loop loop ; g',
+                     ': g 2 0 do 2 0 do I J + local y y loop loop ; g', '{ 1 "k" 2 "k" } "k" get', '{ 1 "a" 2 "b" 3 "a" } dup "a" get swap length',
+                     '7 ^{ 1 "t" 2 "t" ^} "t" get-tag', '{ 1 5 2 5 3 5 } 5 get', '3 0 do { I "k" I 1 + "k" } "k" get loop',
                      '0 8 uint! [ 0xff 0xff ] >bitstr open-bitstr 4 bits close-bitstr bitstr-append bitstr>hex',
                      '[ 255 255 255 ] >bitstr open-bitstr 9 bits close-bitstr |0| bitstr-append', '[ 1 2 3 ] >bitstr open-bitstr 8 bits drop 8 bits close-bitstr bitstr-not',
                      '[ 255 ] >bitstr open-bitstr 3 bits close-bitstr dup |x.| bitstr-append swap bitstr-not', '[ 170 85 ] >bitstr open-bitstr 4 bits drop 8 bits close-bitstr 0 3 uint! swap bitstr-append', '[ 1 2 ] foreach I loop 3 0 do I loop', ': r local n n 0 > if n 1 - r then n ; 3 r', ': f local a a ^hex local a a ; 9 f print', '3 0 do I 1 == if break then I loop 7']:
